@@ -88,11 +88,40 @@ def gen_tokens(rng, regime):
 def gen(rng, tier, idx):
     scn = workloads.session_scenario(rng, purpose="exec", allow_spend=False)
     scn["observe"] = True
-    scn["regime"] = "clean" if rng.chance(70) else "fault"
-    scn["tokens"] = gen_tokens(rng, scn["regime"])
+    scn["regime"] = rng.weighted([(60, "clean"), (25, "fault"), (15, "noise")])
+    scn["tokens"] = gen_tokens(rng, "fault" if (scn["regime"] == "fault" or (scn["regime"] == "noise" and rng.chance(60))) else "clean")
     scn["k"] = rng.below(1000)
     scn["faults"] = []
+    if scn["regime"] == "noise":
+        scn["noise"], scn["noise_equiv"] = gen_noise(rng)
     return scn
+
+
+def gen_noise(rng):
+    """commands issued before the exec whose net effect on the session state is known:
+    (what session A does, the plain equivalent session B does instead)"""
+    a, b = [], []
+    for _ in range(rng.range(1, 3)):
+        k = rng.below(9)
+        if k == 0:
+            a.append(["exec", "0102030405", "OP_1ADD"]); b.append(["exec", "0102030405"])          # throws after the push
+        elif k == 1:
+            a.append(["exec", "5", "0102030405", "OP_ADD"]); b.append(["exec", "5", "0102030405"])
+        elif k == 2:
+            a.append(["exec", "OP_0", "OP_VERIFY"]); b.append(["exec", "OP_0"])                      # fails, operand stays
+        elif k == 3:
+            a.append(["exec", "7", "OP_RETURN"]); b.append(["exec", "7"])
+        elif k == 4:
+            a.append(["tf", "int", "0x0102030405"])                                                  # throws inside tf
+        elif k == 5:
+            a.append(["unknown", "frobnicate"])
+        elif k == 6:
+            a.append(["exec", "OP_NOSUCHOP"])                                                        # rejected before execution
+        elif k == 7:
+            a.append(["tf", "sha256", "0x01"]); a.append(["print"])
+        else:
+            a.append(["exec", "OP_RESERVED"]); b.append(["exec", "OP_NOP"])                          # bad opcode: no stack effect; NOP: none either
+    return a, b
 
 
 def shrink_extra(scn, still, budget):
@@ -116,6 +145,66 @@ def diff(names, a, b):
 
 
 def evaluate(ctx, scn):
+    if scn.get("regime") == "noise" and scn.get("noise") is not None:
+        return evaluate_noise(ctx, scn)
+    return evaluate_splice(ctx, scn)
+
+
+def evaluate_noise(ctx, scn):
+    """The outcome of `exec` depends on the session state only, not on what was typed before: session A issues
+    commands that throw / fail / are unknown, session B their plain equivalent; where both stand in the same
+    state before the exec, the reply and every later state must be equal."""
+    ev = Eval()
+    raw = bytes.fromhex(scn["script"])
+    try:
+        ops = S.decode(raw)
+    except ValueError:
+        return ev
+    nops = len(ops)
+    k = scn["k"] % (nops + 1)
+    toks = scn["tokens"]
+    runs = []
+    for noise in (scn["noise"], scn["noise_equiv"]):
+        items = [["sync"]] + [["step"]] * k + [list(x) for x in noise] + [["sync"]] + [["exec"] + [t[0] for t in toks]] + [["step"]] * (nops - k + 2)
+        w = session.build_world(scn, sched=items)
+        r = ctx.run(w)
+        ev.hashes.append(r.hash())
+        ev.counters["term:" + r.classify()[0]] += 1
+        cmds = session.parse_session(w, r, items)
+        at = 1 + k + len(noise)           # index of the second sync
+        runs.append((items, cmds, at, r))
+    (ia, ca, xa, ra), (ib, cb, xb, rb) = runs
+    if xa + 1 >= len(ca) or xb + 1 >= len(cb) or ca[xa].reply is None or cb[xb].reply is None:
+        ev.counters["noise_not_reached"] += 1
+        return ev
+    pa, pb = session.wb_state(ca[xa].post), session.wb_state(cb[xb].post)
+    if pa is None or pb is None or pa != pb:
+        ev.counters["noise_prestate_differs"] += 1     # e.g. a repair that rolls a failed exec back: nothing to compare
+        return ev
+    ev.counters["probe:exec_after_noise_same_prestate"] += 1
+    n = min(len(ca) - xa, len(cb) - xb)
+    for j in range(1, n):
+        a, b = ca[xa + j], cb[xb + j]
+        if a.reply is None or b.reply is None:
+            if (a.reply is None) != (b.reply is None):
+                ev.add(PROP, "history-dependence", "termination", "after %s the session ends differently than after %s" % (scn["noise"], scn["noise_equiv"]))
+            break
+        what = "`%s`" % session.render_item(a.item)[:50]
+        if a.reply != b.reply:
+            ev.add(PROP, "history-dependence", "error-text" if a.reply[0] == b.reply[0] else "outcome",
+                   "%s answers %r after the commands %s but %r after %s, from the same session state" % (what, a.reply, [" ".join(x) for x in scn["noise"]], b.reply, [" ".join(x) for x in scn["noise_equiv"]]))
+            break
+        sa, sb = session.wb_state(a.post), session.wb_state(b.post)
+        if sa is not None and sb is not None and sa != sb:
+            d = session.wb_diff(sb, sa)
+            ev.add(PROP, "history-dependence", d[0].split(":")[0], "%s leaves a different state depending on earlier failed commands: %s" % (what, "; ".join(d[:3])))
+            break
+    ev.nontrivial = k >= 1 and ra.normal() and rb.normal()
+    ev.cov = [("noise", k, tuple(t[0] for t in toks), tuple(tuple(x) for x in scn["noise"]))]
+    return ev
+
+
+def evaluate_splice(ctx, scn):
     ev = Eval()
     raw = bytes.fromhex(scn["script"])
     try:
@@ -201,7 +290,24 @@ def evaluate(ctx, scn):
                     ev.counters["probe:exec_fails_at_op_1"] += 1
                 elif ref.fail:
                     ev.counters["probe:exec_fails_at_op_k"] += 1
-                tainted = True          # post-failure states are not compared
+                tainted = True          # post-failure states are not compared with the reference ...
+                # ... but nothing after the failing operation may have run: the same exec cut after the failing token must end in the same state
+                if ref.fail and k < ref.fail[0] < k + n:
+                    j = ref.fail[0] - k
+                    items_t = [["sync"]] + [["step"]] * k + [["exec"] + [t[0] for t in toks[:j]]]
+                    wt = session.build_world(scn, sched=items_t)
+                    rt = ctx.run(wt)
+                    ev.hashes.append(rt.hash())
+                    ct = session.parse_session(wt, rt, items_t)
+                    if ct and ct[-1].reply is not None and ct[-1].post is not None and c.post is not None:
+                        ev.counters["probe:exec_failure_with_tokens_after_it"] += 1
+                        a, b = sub(c.post), sub(ct[-1].post)
+                        if a != b:
+                            d = diff(CMP, b, a)
+                            ev.add(PROP, "continues-after-failure", d[0].split(":")[0],
+                                   "`exec %s` fails at token %d but the tokens after it still took effect: %s" % (" ".join(t[0][:20] for t in toks), j, "; ".join(d[:3])))
+                        elif ct[-1].reply != c.reply:
+                            ev.add(PROP, "continues-after-failure", "reply", "`exec` of the tokens up to the failing one answers %r, the full list %r" % (ct[-1].reply, c.reply))
                 continue
             # accepted
             if ref.fail is not None and k < ref.fail[0] <= k + n:
